@@ -119,10 +119,7 @@ def pieces_for(leaf):
             reach = math.sqrt(2.0) * P["width"] / 2.0
             if la and lb and P["join"] == "miter":
                 cosang = max(-1.0, min(1.0, (ax * bx + ay * by) / (la * lb)))
-                c = math.cos(math.acos(cosang) / 2.0)
-                ratio = 1.0 / c if c > 1e-9 else float("inf")
-                if ratio <= P["miterlimit"]:
-                    reach = max(reach, ratio * P["width"] / 2.0)
+                reach = max(reach, _miter_reach(math.acos(cosang), P["miterlimit"], P["width"] / 2.0))
             seam = Piece([pts[0], pts[0]], False)
             seam.for_in = False
             seam.seam = (pts[0], reach)
@@ -199,6 +196,23 @@ def _vertex_info(pc):
     return out
 
 
+_TURN_SLACK = 0.1  # rad: the chords of a flattened curve miss the tangents at a join by up to this much (both sides together)
+
+
+def _miter_reach(turn, limit, w2):
+    """How far a miter join may reach from the vertex.  The turning angle comes from flattened
+    chords, so near the miter limit it is uncertain whether the engine (which uses the true
+    tangents) still miters: if the smallest possible ratio is within the limit, the reach is the
+    largest possible one, capped at the limit."""
+    def ratio(t):
+        c = math.cos(min(math.pi, max(0.0, t)) / 2.0)
+        return 1.0 / c if c > 1e-9 else float("inf")
+
+    if ratio(turn - _TURN_SLACK) > limit:
+        return w2
+    return w2 * min(limit, ratio(turn + _TURN_SLACK))
+
+
 def _miters(pc, P, w2):
     n = len(pc.pts)
     out = [w2] * n
@@ -215,9 +229,7 @@ def _miters(pc, P, w2):
         cosang = max(-1.0, min(1.0, (ax * bx + ay * by) / (la * lb)))  # cos of turning angle
         # interior angle theta = pi - turning; miter ratio = 1/sin(theta/2) = 1/cos(turn/2)
         turn = math.acos(cosang)
-        c = math.cos(turn / 2.0)
-        ratio = 1.0 / c if c > 1e-9 else float("inf")
-        out[i] = w2 * ratio if ratio <= P["miterlimit"] else w2
+        out[i] = _miter_reach(turn, P["miterlimit"], w2)
     if pc.full_closed and n >= 3:
         # the closing vertex joins last and first segment
         ax, ay = pts[-1][0] - pts[-2][0], pts[-1][1] - pts[-2][1]
@@ -225,9 +237,7 @@ def _miters(pc, P, w2):
         la, lb = math.hypot(ax, ay), math.hypot(bx, by)
         if la and lb:
             cosang = max(-1.0, min(1.0, (ax * bx + ay * by) / (la * lb)))
-            c = math.cos(math.acos(cosang) / 2.0)
-            ratio = 1.0 / c if c > 1e-9 else float("inf")
-            out[0] = out[-1] = w2 * ratio if ratio <= P["miterlimit"] else w2
+            out[0] = out[-1] = _miter_reach(math.acos(cosang), P["miterlimit"], w2)
     return out
 
 
